@@ -559,7 +559,11 @@ pub fn parse_duration(
     fragment: &yaml::Yaml,
 ) -> Result<Option<std::time::Duration>, Error> {
     if let yaml::Yaml::Integer(i) = fragment {
-        Ok(Some(std::time::Duration::from_secs(*i as u64)))
+        use std::convert::TryFrom as _;
+        let secs = u64::try_from(*i).map_err(|_| {
+            Error::InvalidConfig(format!("{} cannot be a negative duration ({})", name, i))
+        })?;
+        Ok(Some(std::time::Duration::from_secs(secs)))
     } else {
         parse_string(name, fragment).and_then(str_duration)
     }
